@@ -1355,6 +1355,13 @@ def _opts_run(s, sig, case, limit):
             # the app hands their NotCompleted on (app/align.py progressive_align.main): not an alignment result
             if estimated and str(getattr(res, "origin", "")) in TREE_BUILDERS:
                 return "no-guide-tree"
+            if case["model"] == "codon" and not any(
+                set(v[i : i + 3]) <= set("ACGT") for v in case["seqs"].values() for i in range(0, len(v) - 2, 3)
+            ):
+                # no sequence holds a single unambiguous codon: the codon frequencies the model takes
+                # from the data are 0/0, the app refuses (not-completed), nothing to align against
+                s.cls("out-of-domain:no-unambiguous-codon")
+                return "no-guide-tree"
             s.fail(f"{sig}/completed", f"app returned {_R(res)}")
             return None
         aln = res
